@@ -661,8 +661,14 @@ Record pcase := mkcase {
   pc_sets : list (str * pyval);               (* prior history *)
   pc_argv : option (list str);                (* None: a hand-made namespace is used instead *)
   pc_ns : list (str * pyval);                 (* the hand-made namespace *)
-  pc_ignore : list str
+  pc_ignore : list str;
+  pc_reserved : list str                      (* keys of this schema that are public attributes of the Config class:
+                                                 `config.save` is the method, not the field -- chained attribute
+                                                 access through such a key is outside the model and observed as a tag *)
 }.
+
+Definition o_getattr (reserved : list str) (c0 : cval) (p : str) : pyval :=
+  if existsb (fun k => str_in k reserved) (path_keys p) then o_str "reserved" else o_rc (getattr_path c0 p).
 
 Definition run_paths (c : pcase) : pyval :=
   let chain := pc_chain c in
@@ -677,10 +683,10 @@ Definition run_paths (c : pcase) : pyval :=
                                     PStr (ref_path (snd pf));
                                     PBool (mem c0 (fst pf));
                                     o_rc (getitem c0 (fst pf));
-                                    o_rc (getattr_path c0 (fst pf))]) en) in
+                                    o_getattr (pc_reserved c) c0 (fst pf)]) en) in
   let o_extra :=
     PList 0 (map (fun p => PTuple [o_lookup chain s p None; PBool (mem c0 p);
-                                   o_rc (getitem c0 p); o_rc (getattr_path c0 p)]) (pc_extra c)) in
+                                   o_rc (getitem c0 p); o_getattr (pc_reserved c) c0 p]) (pc_extra c)) in
   let tbl := option_table_in chain s in
   let o_tbl := PList 0 (map o_opt_row tbl) in
   match run_sets fos c0 c0 (pc_sets c) with
